@@ -157,9 +157,21 @@ func (m *model) pack(a *abi.ABI) ([]byte, error) {
 		out = append(append([]byte(nil), m.Selector...), out[4:]...)
 	}
 	for _, p := range m.Post {
-		out = p(out)
+		var ok bool
+		if out, ok = tryPost(p, out); !ok {
+			return nil, errInapplicable
+		}
 	}
 	return out, nil
+}
+
+func tryPost(p func([]byte) []byte, b []byte) (out []byte, ok bool) {
+	defer func() {
+		if r := recover(); r != nil {
+			ok = false
+		}
+	}()
+	return p(b), true
 }
 
 // compassValset is what the bridge contract stores for a snapshot: the
